@@ -336,9 +336,10 @@ func pubStress(P, S, M, closers int, seed uint64) string {
 	for c := 0; c < closers && c < S; c++ {
 		for k := 0; k < 2; k++ {
 			wgC.Add(1)
+			nap := time.Duration(rg.intn(300)) * time.Microsecond
 			go func(c int) {
 				defer wgC.Done()
-				time.Sleep(time.Duration(rg.intn(300)) * time.Microsecond)
+				time.Sleep(nap)
 				subs[c].s.Close()
 			}(c)
 		}
